@@ -428,6 +428,11 @@ func runProperty(o *Options, pc *PropertyConfig) int {
 	for _, m := range missing {
 		fmt.Printf("UNDECIDED function under contract not found: %s\n", m)
 	}
+	for _, is := range issues {
+		if strings.Contains(is, "UNDECIDED(") {
+			undecided = append(undecided, is)
+		}
+	}
 	sort.Strings(issues)
 	for _, is := range dedup(issues) {
 		fmt.Printf("NOTE %s\n", is)
